@@ -414,7 +414,8 @@ fn main() {
                          override o3: Flag;\n\
                          override o4: Flag = false;\n\
                          fn {f}(x: f32) -> f32 {{ return x * {c}; }}\n\
-                         @vertex fn {ve}(v: {s}) -> @builtin(position) vec4<f32> {{ return v.{m} * {f}({g}.{hm}.x) * {o} * f32({oreq}) + {pc}.k; }}\n\
+                         fn pass_through(w: {s}) -> {s} {{ return w; }}\n\
+                         @vertex fn {ve}(v0: {s}) -> @builtin(position) vec4<f32> {{ let v = pass_through(v0); return v.{m} * {f}({g}.{hm}.x) * {o} * f32({oreq}) + {pc}.k; }}\n\
                          @fragment fn {fe}() -> @location(0) vec4<f32> {{ return select(vec4<f32>({c}), textureLoad({t}, vec2<i32>(0, 0), 0), {oid} || o3 || o4); }}\n\
                          @compute @workgroup_size(1) fn {ce}() {{ }}\n"
                     );
@@ -460,6 +461,25 @@ fn main() {
             ];
             for (id, src) in list {
                 emit(&format!("variants:{id}"), &src);
+            }
+        }
+        "provoke" => {
+            // shaders that make a call END BADLY in different ways: the sequence harness runs them between other cases and checks that
+            // nothing of the failure stays behind in the process (a "formatter is broken" flag, a poisoned lock, a cache that is only
+            // cleared on success ..)
+            let list: [(&str, &str); 9] = [
+                ("keyword-member-box", "struct S { box: vec4<f32> }\n@group(0) @binding(0) var<uniform> u: S;\n@compute @workgroup_size(1) fn main() { _ = u.box; }\n"),
+                ("keyword-global-in", "@group(0) @binding(0) var<uniform> in: vec4<f32>;\n@compute @workgroup_size(1) fn main() { _ = in; }\n"),
+                ("runtime-array-without-encase", "struct R { n: u32, items: array<vec4<f32>> }\n@group(0) @binding(0) var<storage, read> r: R;\n@compute @workgroup_size(1) fn main() { _ = r.n; }\n"),
+                ("top-level-atomic", "@group(0) @binding(0) var<storage, read_write> counter: atomic<u32>;\n@compute @workgroup_size(1) fn main() { atomicAdd(&counter, 1u); }\n"),
+                ("parse-error", "@compute @workgroup_size(1) fn main( {\n"),
+                ("validation-error", "@fragment fn fs() -> vec4<f32> { return vec4<f32>(1.0); }\n"),
+                ("duplicate-binding", "@group(0) @binding(0) var<uniform> a: vec4<f32>;\n@group(0) @binding(0) var<uniform> b: vec4<f32>;\n@compute @workgroup_size(1) fn main() { }\n"),
+                ("group-gap", "@group(2) @binding(0) var<uniform> a: vec4<f32>;\n@compute @workgroup_size(1) fn main() { _ = a; }\n"),
+                ("plain", "struct P { a: vec4<f32> }\n@group(0) @binding(0) var<uniform> p: P;\n@compute @workgroup_size(1) fn main() { _ = p.a; }\n"),
+            ];
+            for (id, src) in list {
+                emit(&format!("provoke:{id}"), src);
             }
         }
         "big" => {
